@@ -11,17 +11,20 @@
    Switches read from the source (Gen/ListenerTokens.v):
      insp_first     rawConfig.Inspector is assigned BEFORE the TLS manager is built from rawConfig
      idle_stored    the update branch writes the new idle time-out into the stored config as well (not only into the live object)
-     remove_clears  DeleteListener removes the listener from the stored configuration *)
+     remove_clears  DeleteListener removes the listener from the stored configuration
+     dump_is_live   what is stored for the dump is the running listener's own (merged) config, not the update request *)
 From Coq Require Import List Arith Bool.
 Import ListNotations.
 
-Record lconf := mkLC { lc_ctxs : list nat; lc_insp : bool; lc_route : nat; lc_idle : nat }.
+Record lconf := mkLC { lc_ctxs : list nat; lc_insp : bool; lc_route : nat; lc_idle : nat;
+                       lc_static : nat (* the fields an in-place update does NOT apply to a running listener - bind_port, type,
+                                          network, reuse_port, access_logs, default_read_buffer_size - as one opaque token *) }.
 (* the live listener: what its TLS manager was built from, where its proxy routes, its idle time-out *)
-Record llive := mkLL { ll_mgr : list nat * bool; ll_route : nat; ll_idle : nat }.
+Record llive := mkLL { ll_mgr : list nat * bool; ll_route : nat; ll_idle : nat; ll_static : nat }.
 
-Definition fresh (c : lconf) : llive := mkLL (lc_ctxs c, lc_insp c) (lc_route c) (lc_idle c).
+Definition fresh (c : lconf) : llive := mkLL (lc_ctxs c, lc_insp c) (lc_route c) (lc_idle c) (lc_static c).
 
-Record lflags := mkF { insp_first : bool; idle_stored : bool; remove_clears : bool }.
+Record lflags := mkF { insp_first : bool; idle_stored : bool; remove_clears : bool; dump_is_live : bool }.
 
 Record lstate := mkS { live : nat -> option llive; stored : nat -> option lconf }.
 Definition s_init : lstate := mkS (fun _ => None) (fun _ => None).
@@ -31,14 +34,21 @@ Definition upd {A} (m : nat -> option A) (n : nat) (v : option A) : nat -> optio
 
 Inductive uop := UAddOrUpdate (n : nat) (c : lconf) | URemove (n : nat).
 
+(* the config of a running listener after an in-place update with document c: the applied fields come from the document,
+   the static fields stay as they are *)
+Definition merge (p c : lconf) : lconf := mkLC (lc_ctxs c) (lc_insp c) (lc_route c) (lc_idle c) (lc_static p).
+
 Definition u_step (f : lflags) (s : lstate) (o : uop) : lstate :=
   match o with
   | UAddOrUpdate n c =>
       match live s n, stored s n with
       | Some _, Some p =>
-          (* update branch *)
-          mkS (upd (live s) n (Some (mkLL (lc_ctxs c, if insp_first f then lc_insp c else lc_insp p) (lc_route c) (lc_idle c))))
-              (upd (stored s) n (Some (mkLC (lc_ctxs c) (lc_insp c) (lc_route c) (if idle_stored f then lc_idle c else lc_idle p))))
+          (* update branch: the running listener keeps its static fields; the stored (dumped) config is the running
+             listener's own merged config - or, with dump_is_live = false, the update request's document *)
+          mkS (upd (live s) n (Some (mkLL (lc_ctxs c, if insp_first f then lc_insp c else lc_insp p) (lc_route c) (lc_idle c) (lc_static p))))
+              (upd (stored s) n (Some (if dump_is_live f
+                                       then mkLC (lc_ctxs c) (lc_insp c) (lc_route c) (if idle_stored f then lc_idle c else lc_idle p) (lc_static p)
+                                       else c)))
       | _, _ =>
           (* add branch *)
           mkS (upd (live s) n (Some (fresh c))) (upd (stored s) n (Some c))
@@ -50,19 +60,19 @@ Definition u_run (f : lflags) (ops : list uop) : lstate := fold_left (u_step f) 
 
 (* what a client observes on a listener: listening?, TLS handshake possible, certificate of the first context,
    plaintext served, route target, idle connection closed *)
-Definition observation := (bool * bool * nat * bool * nat * bool)%type.
+Definition observation := (bool * bool * nat * bool * nat * bool * nat)%type.
 Definition observe (l : option llive) : observation :=
   match l with
-  | None => (false, false, 0, false, 0, false)
+  | None => (false, false, 0, false, 0, false, 0)
   | Some x =>
       let ctxs := fst (ll_mgr x) in
       let tls := negb (match ctxs with [] => true | _ => false end) in
-      (true, tls, hd 0 ctxs, orb (negb tls) (snd (ll_mgr x)), ll_route x, negb (Nat.eqb (ll_idle x) 0))
+      (true, tls, hd 0 ctxs, orb (negb tls) (snd (ll_mgr x)), ll_route x, negb (Nat.eqb (ll_idle x) 0), ll_static x)
   end.
 
 Definition obs_eqb (a b : observation) : bool :=
-  match a, b with (a1, a2, a3, a4, a5, a6), (b1, b2, b3, b4, b5, b6) =>
-    andb (andb (andb (Bool.eqb a1 b1) (Bool.eqb a2 b2)) (andb (Nat.eqb a3 b3) (Bool.eqb a4 b4))) (andb (Nat.eqb a5 b5) (Bool.eqb a6 b6)) end.
+  match a, b with (a1, a2, a3, a4, a5, a6, a7), (b1, b2, b3, b4, b5, b6, b7) =>
+    andb (andb (andb (andb (Bool.eqb a1 b1) (Bool.eqb a2 b2)) (andb (Nat.eqb a3 b3) (Bool.eqb a4 b4))) (andb (Nat.eqb a5 b5) (Bool.eqb a6 b6))) (Nat.eqb a7 b7) end.
 
 Fixpoint mismatches_from {A} (ok : A -> bool) (i : nat) (l : list A) : list nat :=
   match l with
@@ -70,8 +80,15 @@ Fixpoint mismatches_from {A} (ok : A -> bool) (i : nat) (l : list A) : list nat 
   | x :: l' => if ok x then mismatches_from ok (S i) l' else i :: mismatches_from ok (S i) l'
   end.
 
-(* update history, listener name, what the client observed on the LIVE listener *)
-Definition lu_case := (list uop * nat * observation)%type.
+(* update history, listener name, what was observed on the LIVE listener (clients + the static fields of its own config),
+   the static fields of the DUMPED config (None: not in the dump) *)
+Definition lu_case := (list uop * nat * observation * option nat)%type.
 Definition lu_case_ok (f : lflags) (k : lu_case) : bool :=
-  match k with (ops, n, got) => obs_eqb (observe (live (u_run f ops) n)) got end.
+  match k with (ops, n, got, dumped) =>
+    andb (obs_eqb (observe (live (u_run f ops) n)) got)
+         (match option_map lc_static (stored (u_run f ops) n), dumped with
+          | Some a, Some b => Nat.eqb a b
+          | None, None => true
+          | _, _ => false
+          end) end.
 Definition lu_mismatches (f : lflags) (l : list lu_case) : list nat := mismatches_from (lu_case_ok f) 0 l.
